@@ -32,6 +32,7 @@ type recConn struct {
 	wrote bytes.Buffer
 	seg   int // 0 as is; 1 one byte at a time for the first 600 bytes; 2 three-byte pieces; 3 split after 5 bytes
 	frag  int // > 0: the ClientHello (first write, one handshake record) goes out as TWO TLS records cut after `frag` payload bytes
+	ccs   bool // the ClientHello is followed, in the same write, by a change_cipher_spec record (TLS 1.3 middlebox compatibility, sent early)
 	sent  int
 }
 
@@ -45,6 +46,13 @@ func (c *recConn) Write(b []byte) (int, error) {
 	seg := c.seg
 	frag := c.frag
 	c.mu.Unlock()
+	if c.ccs && start == 0 && len(b) > 5 && b[0] == 22 {
+		out := append(append([]byte{}, b...), 0x14, 0x03, 0x03, 0x00, 0x01, 0x01)
+		if _, err := c.Conn.Write(out); err != nil {
+			return 0, err
+		}
+		return len(b), nil
+	}
 	if frag > 0 && start == 0 && len(b) > 5 && b[0] == 22 && 5+(int(b[3])<<8|int(b[4])) == len(b) && frag < len(b)-5 {
 		// same handshake message, re-framed over two records (RFC 8446 5.1 allows it; crypto/tls accepts it)
 		p := b[5:]
@@ -210,6 +218,7 @@ type clientCfg struct {
 	peer    string // local address to dial from (127.0.0.x or ::1)
 	seg     int
 	frag    int
+	ccs     bool
 	minVer  uint16
 	maxVer  uint16
 	ciphers []uint16
@@ -227,7 +236,7 @@ func dialProxy(e *e2eEnv, c clientCfg) (net.Conn, *recConn, string, error) {
 	if err != nil {
 		return nil, nil, "", err
 	}
-	rc := &recConn{Conn: raw, seg: c.seg, frag: c.frag}
+	rc := &recConn{Conn: raw, seg: c.seg, frag: c.frag, ccs: c.ccs}
 	pool := x509.NewCertPool()
 	pool.AppendCertsFromPEM(e.certPEM)
 	raw.SetDeadline(time.Now().Add(20 * time.Second))
@@ -250,6 +259,26 @@ func dialProxy(e *e2eEnv, c clientCfg) (net.Conn, *recConn, string, error) {
 		"utls-360": utls.Hello360_11_0, "utls-qq": utls.HelloQQ_11_1}[c.kind]
 	ucfg := &utls.Config{ServerName: c.sni, InsecureSkipVerify: true, NextProtos: c.alpn}
 	uc := utls.UClient(rc, ucfg, id)
+	if c.kind == "utls-nopf" {
+		// a TLS 1.3 stack that sends no ec_point_formats extension (rustls and friends): the Firefox preset minus that extension
+		spec, err := utls.UTLSIdToSpec(utls.HelloFirefox_120)
+		if err != nil {
+			raw.Close()
+			return nil, rc, "", err
+		}
+		var keep []utls.TLSExtension
+		for _, ext := range spec.Extensions {
+			if _, ok := ext.(*utls.SupportedPointsExtension); !ok {
+				keep = append(keep, ext)
+			}
+		}
+		spec.Extensions = keep
+		uc = utls.UClient(rc, ucfg, utls.HelloCustom)
+		if err := uc.ApplyPreset(&spec); err != nil {
+			raw.Close()
+			return nil, rc, "", err
+		}
+	}
 	if len(c.alpn) > 0 && c.kind != "utls-golang" {
 		// keep the preset's extension order but offer exactly the requested protocols
 		if err := uc.BuildHandshakeState(); err == nil {
@@ -416,7 +445,19 @@ func h2Exchange(conn net.Conn, toks []string, reqs []e2eReq) (map[uint32]*e2eRes
 			for i := 0; i < nfrag; i++ {
 				frags = append(frags, block[i*len(block)/nfrag:(i+1)*len(block)/nfrag])
 			}
-			err = fr.WriteHeaders(http2.HeadersFrameParam{StreamID: id, BlockFragment: frags[0], EndStream: es, EndHeaders: len(frags) == 1, Priority: prio})
+			if p[2] != "-" && prio.IsZero() {
+				// PRIORITY flag with an all-zero priority block: only a raw frame can say that
+				var fl http2.Flags = http2.FlagHeadersPriority
+				if es {
+					fl |= http2.FlagHeadersEndStream
+				}
+				if len(frags) == 1 {
+					fl |= http2.FlagHeadersEndHeaders
+				}
+				err = fr.WriteRawFrame(http2.FrameHeaders, fl, id, append([]byte{0, 0, 0, 0, 0}, frags[0]...))
+			} else {
+				err = fr.WriteHeaders(http2.HeadersFrameParam{StreamID: id, BlockFragment: frags[0], EndStream: es, EndHeaders: len(frags) == 1, Priority: prio})
+			}
 			for i := 1; i < len(frags) && err == nil; i++ {
 				err = fr.WriteContinuation(id, i == len(frags)-1, frags[i])
 			}
